@@ -52,7 +52,12 @@ type c06Job struct {
 	// "zstr" quoted decimal string padded with zeros to 7 digits, "env"/"zenv" a "$NAME" reference to an environment
 	// variable holding the plain / the zero-padded decimal string. The configured range is the decimal value.
 	Spell string `json:"spell,omitempty"`
-	Tick  bool   `json:"tick"` // the environment may also grow the chain right AFTER the node answered an exchange and fire the client's head-poller ticker (the poller refreshes the head cache behind the task's back)
+	// Fault > 0: source-fault family. ONE fault is injected at any JSON-RPC exchange the task makes after the set-up (the
+	// fault point is the ordinal of the exchange, whatever the method: a call that only a changed tree makes is a fault
+	// point like any other); Fault = number of fault kinds offered (1: JSON-RPC error object, 2: + transport error,
+	// 3: + HTTP 500, 4: + truncated body). No placed growth and no restart on these jobs.
+	Fault int  `json:"fault,omitempty"`
+	Tick  bool `json:"tick"` // the environment may also grow the chain right AFTER the node answered an exchange and fire the client's head-poller ticker (the poller refreshes the head cache behind the task's back)
 }
 
 type c06Case struct {
@@ -67,14 +72,15 @@ func init() {
 	checks.Register(&checks.Check{
 		ID:        "C06",
 		Level:     "model_checking",
-		Technique: "stateless model checking of the real pipeline (controlled scheduler over instrumented code, fake Postgres, simulated node): every (start, stop) pair relative to the head x batch x concurrency x prior recorded position, all interleavings of task steps with head growth up to a preemption bound, every placement of a process restart; range oracle evaluated on every commit",
-		Rule: "jobs = head h in 1..5 (every block produces rows) x start in 0..h+2 x stop in {unset} u 1..h+2 x batch in 1..3 x conc in 1..2 x prior position in {none, inside the range (produced by really running the task on a shorter chain), at stop} x shape {L1 headers+logs, T1 blocks}, plus reconfigured ranges (position 2 recorded with start 1, tasks rebuilt with start in {1,2,3,4,8} and stop in {unset,2,4,h+2}: must resume from 3), plus start/stop written as JSON number, quoted decimal, zero-padded quoted decimal, $ENV reference to a plain and to a zero-padded value (h=8, start 8..10, stop unset,9..11), plus, for every range with a start and a stop and batch >= 2 (conc 1), the same job with a SECOND integration on the source that is stepped before every step of the one under test: unrelated, or referenced by it through a filter reference (one client and block cache, dependency limit) (quick: the shape alternates with batch+conc and one inside position, the middle one; thorough: both shapes, every inside position); " +
-			"per job: the environment grows the chain to h+3 in two operations; by default it acts whenever the task idles (one operation, or both: enumerated); deviations enumerated exhaustively: growth operations placed before any step or at any JSON-RPC exchange of the task (the preemption), and process restarts (tasks discarded, real loadTasks again) before any step; on jobs without a recorded position whose start is unset or beyond the head a placed growth may also happen right after the node answered the exchange, followed by a tick of the client's head poller (the poller refreshes the head cache between two reads of the task). quick: <= 1 placed growth, <= 1 restart, both in one execution only when h <= 2 or start is unset; thorough: <= 2 of each, 2 in total (h = 5: one of each). " +
+		Technique: "stateless model checking of the real pipeline (controlled scheduler over instrumented code, fake Postgres, simulated node): every (start, stop) pair relative to the head x batch x concurrency x prior recorded position, all interleavings of task steps with head growth up to a preemption bound, every placement of a process restart; one source fault at every JSON-RPC exchange of the task on every range with a start and a stop; range oracle evaluated on every commit",
+		Rule: "jobs = head h in 1..5 (every block produces rows) x start in 0..h+2 x stop in {unset} u 1..h+2 x batch in 1..3 x conc in 1..2 x prior position in {none, inside the range (produced by really running the task on a shorter chain), at stop} x shape {L1 headers+logs, T1 blocks}, plus reconfigured ranges (position 2 recorded with start 1, tasks rebuilt with start in {1,2,3,4,8} and stop in {unset,2,4,h+2}: must resume from 3), plus start/stop written as JSON number, quoted decimal, zero-padded quoted decimal, $ENV reference to a plain and to a zero-padded value (h=8, start 8..10, stop unset,9..11), plus, for every range with a start and a stop and batch >= 2 (conc 1), the same job with a SECOND integration on the source that is stepped before every step of the one under test: unrelated, or referenced by it through a filter reference (one client and block cache, dependency limit), plus the SOURCE-FAULT family: every range with 1 <= start <= stop <= h+2 x batch 1..3 x conc 1..2 without a recorded position, where ONE fault (quick: JSON-RPC error object, transport error; thorough: + HTTP 500, truncated body) is injected at any one JSON-RPC exchange the task makes, identified by its ordinal whatever the method (a call only a changed tree makes is a fault point too); the faulted step may fail, every range clause is judged as before (so also when the batch of the faulted step would reach beyond stop while the head is beyond stop) (quick: the shape alternates with batch+conc and one inside position, the middle one; thorough: both shapes, every inside position); " +
+			"per job: the environment grows the chain to h+3 in two operations; by default it acts whenever the task idles (one operation, or both: enumerated); deviations enumerated exhaustively: growth operations placed before any step or at any JSON-RPC exchange of the task (the preemption), and process restarts (tasks discarded, real loadTasks again) before any step; on jobs without a recorded position whose start is unset or beyond the head a placed growth may also happen right after the node answered the exchange, followed by a tick of the client's head poller (the poller refreshes the head cache between two reads of the task). quick: <= 1 placed growth, <= 1 restart, both in one execution only when h <= 2 or start is unset; thorough: <= 2 of each, 2 in total (h = 5: one of each); source-fault jobs: the one fault is the only deviation (growth only while the task idles, no restart). " +
 			"An execution is non-trivial when rows were written or a restart happened; distinct = distinct (job, choice sequence).",
 		Assumptions: []string{
 			"fake Postgres (h/simpg) interprets the SQL shovel sends; simulated node (h/simeth) answers like a well-behaved geth: a block beyond the head answers result null",
 			"start=0 (begin at head): the first written block must be a head the node announced between world start and the first commit",
-			"growth-only histories (reorgs are judged by C03); no faults (judged by C02)",
+			"growth-only histories (reorgs are judged by C03); faults: single faults of the source (JSON-RPC exchanges) on the source-fault family only; database faults, process death and multiple faults are judged by C02",
+			"a step in which a source fault was injected may return an error (nothing written); any other outcome of it is judged like that of a fault-free step",
 			"a cursor recorded at stop while the node's head is lower is produced by running the task against the longer chain first (a node that fell behind)",
 		},
 		Budget:        map[string]time.Duration{"quick": 140 * time.Second, "thorough": 840 * time.Second},
@@ -166,6 +172,30 @@ func c06Jobs(thorough bool) []c06Job {
 		for _, stop := range []uint64{0, 9, 10, 11} {
 			for _, sp := range []string{"", "str", "zstr", "env", "zenv"} {
 				jobs = append(jobs, c06Job{Shape: "L1", H: 8, Start: start, Stop: stop, Batch: 2, Conc: 1, Prior: "none", Grow: 2, Spell: sp, Tick: start >= 9})
+			}
+		}
+	}
+	// source faults: every range with a start and a stop (start <= stop, both relative to the head: before, at, after) x
+	// batch x conc, no recorded position; one fault at any exchange (so also in the step whose batch straddles stop,
+	// while the head is below, at and beyond stop)
+	kinds := 2
+	if thorough {
+		kinds = 4
+	}
+	for h := 1; h <= 5; h++ {
+		for start := uint64(1); start <= uint64(h+2); start++ {
+			for stop := start; stop <= uint64(h+2); stop++ {
+				for batch := 1; batch <= 3; batch++ {
+					for conc := 1; conc <= 2; conc++ {
+						shapes := []string{"L1", "T1"}
+						if !thorough {
+							shapes = []string{[]string{"L1", "T1"}[(batch+conc)%2]}
+						}
+						for _, sh := range shapes {
+							jobs = append(jobs, c06Job{Shape: sh, H: h, Start: start, Stop: stop, Batch: batch, Conc: conc, Prior: "none", Grow: 2, Fault: kinds})
+						}
+					}
+				}
 			}
 		}
 	}
@@ -334,6 +364,7 @@ type c06Result struct {
 	vios     []fw.Violation // at most one per key
 	rows     int
 	restarts int
+	faults   []string // injected source faults
 	outcome  string
 	harness  string
 	trans    int64
@@ -362,6 +393,9 @@ func c06Exec(j c06Job, p *c06Prep, ch vrt.Chooser, states *vrt.StateSet, trace b
 	}
 	if j.Sib != "" {
 		tag += ":sibling-" + j.Sib
+	}
+	if j.Fault > 0 {
+		tag += ":source-fault"
 	}
 	w.V.StateKey = func() uint64 { return w.CommitHash ^ uint64(w.Node("node1").Version)<<48 }
 
@@ -600,6 +634,14 @@ func c06Exec(j c06Job, p *c06Prep, ch vrt.Chooser, states *vrt.StateSet, trace b
 			}
 		}
 		w.OnExchange = func(ex *simeth.Exchange) { growChoice(vrt.KPreempt, "rpc", ex) }
+		if j.Fault > 0 {
+			// set-up is over: from here on every JSON-RPC exchange of the task offers the fault alternatives
+			w.RPCFaultKinds = j.Fault
+			w.FaultFilter = func(label string) bool {
+				cur := w.V.Cur()
+				return strings.HasPrefix(label, "rpc:") && !(cur != nil && strings.HasPrefix(cur.Name, "g")) // (not the head poller's own request)
+			}
+		}
 		tt := w.V.GoNamed("task", func() {
 			maxSteps := 3*int(finalHead) + 12
 			doneStreak, idleStreak := 0, 0
@@ -644,6 +686,7 @@ func c06Exec(j c06Job, p *c06Prep, ch vrt.Chooser, states *vrt.StateSet, trace b
 				headBefore := w.Node("node1").Chain().Head().Num
 				nEx := len(w.Net.Exchanges())
 				hashBefore := w.CommitHash
+				nFaults := len(w.Faults)
 				out, err := task.Step()
 				if w.V.Closing() {
 					return
@@ -664,6 +707,16 @@ func c06Exec(j c06Job, p *c06Prep, ch vrt.Chooser, states *vrt.StateSet, trace b
 				}
 				if beyond {
 					beyondSeen = true
+				}
+				if len(w.Faults) > nFaults {
+					pos := j.Start - 1
+					if hadCur {
+						pos = curBefore
+					}
+					if pos < j.Stop && pos+uint64(j.Batch) > j.Stop && w.Node("node1").Chain().Head().Num > j.Stop {
+						res.counts["source_fault_in_stop_straddling_step"]++ // (non-vacuity: the batch of the faulted step would reach beyond stop)
+					}
+					res.counts["source_fault_step_outcome_"+out]++
 				}
 				if hadStop {
 					if out != "done" {
@@ -711,6 +764,13 @@ func c06Exec(j c06Job, p *c06Prep, ch vrt.Chooser, states *vrt.StateSet, trace b
 						return
 					}
 				case "ahead", "error":
+					if faulted := len(w.Faults) > nFaults; faulted && out == "error" {
+						// the source failed in this step: the step may fail (it is retried); what it must not do is
+						// write (judged on every commit and by state-changed-without-ok below)
+						res.counts["steps_failed_by_source_fault"]++
+						lastErr = err
+						break
+					}
 					if !beyond {
 						vio("outcome", "outcome:"+out+":"+tag+":"+errClass(err), fmt.Sprintf("unexpected step outcome %q: %v", out, err))
 						return
@@ -795,6 +855,7 @@ func c06Exec(j c06Job, p *c06Prep, ch vrt.Chooser, states *vrt.StateSet, trace b
 		w.V.Join(tt)
 	})
 	res.trans = w.V.Transitions
+	res.faults = append([]string{}, w.Faults...)
 	if w.HarnessErr != "" {
 		res.harness = w.HarnessErr
 	}
@@ -830,7 +891,13 @@ func c06Exec(j c06Job, p *c06Prep, ch vrt.Chooser, states *vrt.StateSet, trace b
 	if knownPanic {
 		res.outcome += ":known-panic"
 	}
+	if len(res.faults) > 0 {
+		res.outcome += ":source-fault"
+	}
 	for i := range res.vios {
+		if len(res.faults) > 0 {
+			res.vios[i].Detail += fmt.Sprintf("\ninjected: %v", res.faults)
+		}
 		if trace {
 			res.vios[i].Detail += "\ntrace: " + strings.Join(w.V.Trace, " ")
 		}
@@ -842,6 +909,10 @@ func c06Exec(j c06Job, p *c06Prep, ch vrt.Chooser, states *vrt.StateSet, trace b
 // KPreempt = growth operations placed before a step or at a JSON-RPC exchange, KEnv = restarts.
 func c06Bounds(j c06Job, thorough bool) explore.Bounds {
 	var b explore.Bounds
+	if j.Fault > 0 {
+		b[0], b[vrt.KFault] = 1, 1 // one source fault, no other deviation
+		return b
+	}
 	b[0], b[vrt.KPreempt], b[vrt.KEnv] = 1, 1, 1
 	if j.H <= 2 || j.Start == 0 {
 		b[0] = 2 // a placed growth AND a restart in one execution
@@ -870,6 +941,11 @@ func c06Run(c *fw.Ctx) {
 		c.Bound("deviations", "h <= 4: placed growth operations <= 2, restarts <= 2, together <= 2; h = 5: one placed growth and one restart")
 	} else {
 		c.Bound("deviations", "placed growth operations <= 1, restarts <= 1; both in one execution when h <= 2 or start unset, else one of them")
+	}
+	if c.Thorough() {
+		c.Bound("source_fault", "1 fault per execution at any JSON-RPC exchange of the task: rpcerror,transport,status500,truncate")
+	} else {
+		c.Bound("source_fault", "1 fault per execution at any JSON-RPC exchange of the task: rpcerror,transport")
 	}
 	for _, j := range jobs {
 		if !c.Mine() {
@@ -919,6 +995,7 @@ func c06Run(c *fw.Ctx) {
 				return false
 			}
 			c.Eval(res.rows > 0 || res.restarts > 0)
+			c.Count("source_faults_injected", int64(len(res.faults)))
 			c.Outcome(res.outcome)
 			c.Res.Transitions += res.trans
 			c.Res.Traces++
@@ -949,6 +1026,9 @@ func c06Run(c *fw.Ctx) {
 		c.Count("jobs_prior_"+j.Prior, 1)
 		if j.Sib != "" {
 			c.Count("jobs_sibling_"+j.Sib, 1)
+		}
+		if j.Fault > 0 {
+			c.Count("jobs_source_fault", 1)
 		}
 	}
 }
